@@ -282,9 +282,12 @@ def plan_C13(tier):
     a = Alloc()
     q = tier == "quick"
     jobs = [
-        a.job("asan", 9000 if q else 90000, params={"part": "probe", "noalloc": 1}, timeout=1200),
-        a.job("asan", 4000 if q else 60000, params={"part": "prog", "noalloc": 1}, timeout=1200),
-        a.job("asan", 160 if q else 1600, params={"part": "leak"}, timeout=1200),
+        a.job("asan", 6000 if q else 60000, params={"part": "probe", "noalloc": 1}, timeout=1200),
+        a.job("asan", 3000 if q else 30000, shards=8, cpus=2, params={"part": "probe", "noalloc": 1}, timeout=1200),
+        a.job("asan", 3000 if q else 40000, params={"part": "prog", "noalloc": 1}, timeout=1200),
+        a.job("asan", 1500 if q else 20000, shards=8, cpus=2, params={"part": "prog", "noalloc": 1}, timeout=1200),
+        a.job("asan", 120 if q else 1200, shards=8, params={"part": "leak"}, timeout=1200),
+        a.job("asan", 120 if q else 1200, shards=8, cpus=1, params={"part": "leak"}, timeout=1200),
         a.job("chk", 9000 if q else 90000, params={"part": "probe"}),
         a.job("chk", 4000 if q else 60000, params={"part": "prog"}),
         a.job("rel", 9000 if q else 90000, params={"part": "probe"}),
